@@ -246,7 +246,7 @@ func run(e *core.Env) {
 	nOps := 4 + tp.Intn(40)
 	for op := 0; op < nOps; op++ {
 		e.Step()
-		kind := tp.Pick(5, 4, 5, 3, 5, 3, 5)
+		kind := tp.Pick(5, 4, 5, 3, 5, 3, 5, 2)
 		if len(live) == 0 && kind >= 2 {
 			kind = tp.Intn(2)
 		}
@@ -443,6 +443,41 @@ func run(e *core.Env) {
 				o.link = lk
 			}
 			hist = append(hist, how)
+			verifyAll(how)
+
+		case 7: // a parse that fails (inconsistent lengths); the reader gives the buffer back or drops it
+			n := 67 + tp.Intn(900)
+			raw := tp.Bytes(n)
+			raw[0] = 1
+			raw[4] = byte(msgTypes[tp.Intn(len(msgTypes))])
+			switch tp.Intn(3) {
+			case 0:
+				raw[48] = 255 // switch block longer than the frame
+			case 1:
+				raw[48] = 0
+				raw[49], raw[50] = 0xff, 0xff // message longer than the frame
+			default:
+				raw[48] = byte(n - 60)
+			}
+			ps := b.GetPooledSlice(12 + n + 16)
+			if ps == nil {
+				continue
+			}
+			copy(ps[12:], raw)
+			how := fmt.Sprintf("failedParse(%d bytes)", n)
+			hist = append(hist, how)
+			var perr error
+			if e.Guard("panic", func() { _, perr = b.ParseFrame(ps[12:12+n], ps, 12) }) {
+				e.Fail("", "")
+			}
+			if perr == nil {
+				// the random lengths happened to be consistent: not the case we want
+				continue
+			}
+			if tp.Chance(2, 3) {
+				b.ReturnPooledSlice(ps)
+			}
+			e.Fault("failed_parse")
 			verifyAll(how)
 
 		case 6: // release
